@@ -197,11 +197,15 @@ JudgeGen(e) ==
       own == IF m \in {"random_code", "random_code_with_size", "decompose", "code_rand_instr"} THEN "C12" ELSE "C13"
   IN IF Crashed(e) THEN V("crash", subj, own, e.post.msg)
   ELSE Expect(
-       \* (CODE.RAND handed the list a[1], with a limit a[2] inside the configured maximum: the generator's answer lands on CODE)
-       CASE m \in {"random_code", "code_rand_instr"} ->
-              \* (the instruction with a limit of exactly 1 may push one leaf: the alternative admitted in PushRand)
-              IF a[2] < 2 THEN RetEq(e.ret, RNone) \/ (m = "code_rand_instr" /\ a[2] = 1 /\ e.ret.t = "some" /\ Size(e.ret.v) = 1
-                                                       /\ ValidCode(e.ret.v, a[1]) /\ NamesOK(e.ret.v, a[3], a[4]))
+       \* CODE.RAND handed the list a[1], with a limit a[2] inside the configured maximum: what it leaves on CODE has between 1 and
+       \* limit points (whether the limit itself is an admissible size is left open, as for the step: hole class "randcode"),
+       \* nothing for a limit of 0, nothing or one leaf for a limit of 1
+       CASE m = "code_rand_instr" ->
+              IF a[2] = 0 THEN RetEq(e.ret, RNone)
+              ELSE (a[2] = 1 /\ RetEq(e.ret, RNone))
+                   \/ (e.ret.t = "some" /\ Size(e.ret.v) >= 1 /\ Size(e.ret.v) <= a[2] /\ ValidCode(e.ret.v, a[1]) /\ NamesOK(e.ret.v, a[3], a[4]))
+         [] m = "random_code" ->
+              IF a[2] < 2 THEN RetEq(e.ret, RNone)
               ELSE e.ret.t = "some" /\ Size(e.ret.v) >= 1 /\ Size(e.ret.v) <= a[2] - 1 /\ ValidCode(e.ret.v, a[1])
                    /\ NamesOK(e.ret.v, a[3], a[4])
          [] m = "random_code_with_size" -> e.ret.t = "some" /\ Size(e.ret.v) = a[2] /\ ValidCode(e.ret.v, a[1])
